@@ -517,6 +517,33 @@ func c01Slice(from int) c01F {
 	})
 }
 
+// c01SliceTo: .[from:to] on a sequence; negative positions count from the end, positions beyond the ends are clamped
+func c01SliceTo(from, to int) c01F {
+	return c01Each(func(v *c01V) ([]*c01V, bool) {
+		if v.k != 4 {
+			return nil, false
+		}
+		n := len(v.items)
+		f, t := from, to
+		if f < 0 {
+			f += n
+			if f < 0 {
+				f = 0
+			}
+		}
+		if t < 0 {
+			t += n
+		}
+		if t > n {
+			t = n
+		}
+		if f > t {
+			return []*c01V{c01Seq()}, true
+		}
+		return []*c01V{c01Seq(v.items[f:t]...)}, true
+	})
+}
+
 func c01Has(key string, idx int) c01F {
 	return c01Each(func(v *c01V) ([]*c01V, bool) {
 		switch v.k {
@@ -757,7 +784,7 @@ func c01Programs() []c01Prog {
 		{"keys", c01Keys}, {".a | keys", c01Pipe(a, c01Keys)}, {"has(\"a\")", c01Has("a", 0)}, {"has(\"zz\")", c01Has("zz", 0)}, {".a | has(1)", c01Pipe(a, c01Has("", 1))}, {".a | has(5)", c01Pipe(a, c01Has("", 5))},
 		{".a | reverse", c01Pipe(a, c01Reverse)}, {".a | unique", c01Pipe(a, c01Unique)}, {"[.a, [.b]] | flatten", c01Pipe(c01Collect(c01Union(a, c01Collect(b))), c01Flatten)}, {".a | sort", c01Pipe(a, c01Sort)},
 		{"[.a[] == 1] | any", c01Pipe(c01Collect(c01Bin(ai, one, c01Cmp("=="))), c01Quant(false))}, {"[.a[] == 1] | all", c01Pipe(c01Collect(c01Bin(ai, one, c01Cmp("=="))), c01Quant(true))}, {".e | any", c01Pipe(c01Key("e"), c01Quant(false))}, {".e | all", c01Pipe(c01Key("e"), c01Quant(true))},
-		{".a | join(\"-\")", c01Pipe(a, c01Join)}, {".a | .[1:]", c01Pipe(a, c01Slice(1))}, {".m | to_entries", c01Pipe(m, c01ToEntries)}, {".a | to_entries", c01Pipe(a, c01ToEntries)}, {"..", c01Recurse}, {".a | ..", c01Pipe(a, c01Recurse)},
+		{".a | join(\"-\")", c01Pipe(a, c01Join)}, {".a | .[1:]", c01Pipe(a, c01Slice(1))}, {".a[1:]", c01Pipe(a, c01Slice(1))}, {".a[0:1]", c01Pipe(a, c01SliceTo(0, 1))}, {".a[-1:]", c01Pipe(a, c01SliceTo(-1, 99))}, {".a[1:2] | length", c01Pipe(a, c01Pipe(c01SliceTo(1, 2), c01Length))}, {".m.k as $x | .a[0:2]", c01Var(c01Pipe(m, c01Key("k")), func(_ *c01V) c01F { return c01Pipe(a, c01SliceTo(0, 2)) })}, {".m | to_entries", c01Pipe(m, c01ToEntries)}, {".a | to_entries", c01Pipe(a, c01ToEntries)}, {"..", c01Recurse}, {".a | ..", c01Pipe(a, c01Recurse)},
 		{".b as $x | .a[] + $x", c01Var(b, func(x *c01V) c01F { return c01Bin(ai, c01Lit(x), c01Add) })}, {".a[] as $x | [$x, .b]", c01Var(ai, func(x *c01V) c01F { return c01Collect(c01Union(c01Lit(x), b)) })},
 		{".a[] as $i ireduce (0; . + $i)", c01Sum},
 		{".b as $x | (.m.k as $x | $x) + $x", c01Var(b, func(x *c01V) c01F {
